@@ -143,8 +143,8 @@ func (pe *PolicyEngine) getPeer(p string) (k8s.Peer, error) {
 		}
 		return &k8s.IPBlockPeer{IPBlock: peerIPBlock}, nil
 	}
-	// check if input peer is an ip address
-	if net.ParseIP(p) != nil {
+	// check if input peer is an (IPv4) ip address
+	if parsedIP := net.ParseIP(p); parsedIP != nil && parsedIP.To4() != nil {
 		peerIPBlock, err := netset.IPBlockFromIPAddress(p)
 		if err != nil {
 			return nil, err
